@@ -147,7 +147,19 @@ class CSVTracksBuilder(TracksBuilder):
         # Store position coordinates as individual attributes (z, y, x)
         node_props: dict[str, dict[str, np.ndarray | None]] = {}
         for prop_name, values in df_dict.items():
-            node_props[prop_name] = {"values": np.array(values), "missing": None}
+            missing = np.array([value is None for value in values], dtype=np.bool_)
+            if missing.all() and len(values) > 0:
+                # a column without any value carries no information
+                continue
+            if missing.any():
+                # Empty cells: keep the dtype of the column by filling the gaps with a
+                # present value and mark them as missing, so that the nodes concerned do
+                # not get the property at all
+                fill = next(value for value in values if value is not None)
+                values = [fill if value is None else value for value in values]
+                node_props[prop_name] = {"values": np.array(values), "missing": missing}
+            else:
+                node_props[prop_name] = {"values": np.array(values), "missing": None}
 
         # Extract edge IDs from parent_id column
         edge_tuples = [
